@@ -142,8 +142,8 @@ def _run_chunk(seed: int, tier: str, indices: list[int], wall_cap: float) -> dic
     }
     try:
         for i in indices:
-            plan = chk.gen(seed, i, tier)
             try:
+                plan = chk.gen(seed, i, tier)
                 res = chk.run(plan)
             except Exception:  # harness problem, not a property violation
                 agg["errors"].append({"index": i, "error": traceback.format_exc(limit=12)})
